@@ -20,6 +20,13 @@ type GenCfg struct {
 	// resolvable type URL and a well-formed value carrying unknown records), so
 	// that library code which expands an Any decodes real payloads.
 	AnyTargets []protoreflect.MessageDescriptor
+	// BigLists: now and then a repeated message field gets several hundred
+	// (empty) elements, enough to cross any "large list" threshold.
+	BigLists bool
+	// InvalidUTF8: string values may be invalid UTF-8 (a legal Go string a
+	// caller can put into a message; encoders may reject it, readers must not
+	// rewrite it).
+	InvalidUTF8 bool
 }
 
 var int32Pool = []int64{0, 1, -1, 2, 127, 128, -128, -129, 255, 256, 16383, 16384, math.MaxInt32, math.MinInt32, math.MaxInt32 - 1, math.MinInt32 + 1, 1 << 30, -(1 << 30), 65536, -65536}
@@ -108,6 +115,10 @@ func drawBytes(t *simhook.Tape) []byte {
 	return b
 }
 
+// invalidUTF8 is switched on by Gen for the duration of one value (the tape
+// owner is single-threaded).
+var invalidUTF8 bool
+
 // DrawScalar draws one value of the field's kind (not for message kinds).
 func DrawScalar(t *simhook.Tape, fd protoreflect.FieldDescriptor) protoreflect.Value {
 	switch fd.Kind() {
@@ -126,6 +137,9 @@ func DrawScalar(t *simhook.Tape, fd protoreflect.FieldDescriptor) protoreflect.V
 	case protoreflect.DoubleKind:
 		return protoreflect.ValueOfFloat64(math.Float64frombits(f64Pool[t.Draw("f64", len(f64Pool))]))
 	case protoreflect.StringKind:
+		if invalidUTF8 && t.Chance("invalid-utf8", 1, 10) {
+			return protoreflect.ValueOfString([]string{"\xff", "a\x80b", "\xc3\x28", "ok\xed\xa0\x80"}[t.Draw("invalid-utf8-which", 4)])
+		}
 		return protoreflect.ValueOfString(drawString(t))
 	case protoreflect.BytesKind:
 		return protoreflect.ValueOfBytes(drawBytes(t))
@@ -202,6 +216,8 @@ func classify(md protoreflect.MessageDescriptor) *fieldClasses {
 // message. Maps are favoured, and message-bearing fields are favoured while
 // depth remains, so that maps with several entries occur below the top level.
 func Gen(t *simhook.Tape, md protoreflect.MessageDescriptor, cfg GenCfg) *dynamicpb.Message {
+	invalidUTF8 = cfg.InvalidUTF8
+	defer func() { invalidUTF8 = false }()
 	return gen(t, md, cfg, 0)
 }
 
@@ -289,6 +305,12 @@ func genField(t *simhook.Tape, m *dynamicpb.Message, fd protoreflect.FieldDescri
 	case fd.IsList():
 		n := 1 + t.Draw("listn", cfg.MaxListLen)
 		l := m.Mutable(fd).List()
+		if cfg.BigLists && fd.Kind() == protoreflect.MessageKind && t.Chance("biglist", 1, 12) {
+			for i, big := 0, 513+t.Draw("biglistn", 200); i < big; i++ {
+				l.Append(protoreflect.ValueOfMessage(dynamicpb.NewMessage(fd.Message())))
+			}
+			return
+		}
 		for i := 0; i < n; i++ {
 			if fd.Kind() == protoreflect.MessageKind {
 				if depth < cfg.MaxDepth {
